@@ -2,5 +2,7 @@ import ScalesModel.Core.Val
 import ScalesModel.Core.Run
 import ScalesModel.Model.Async
 import ScalesModel.Adapter.Async
+import ScalesModel.Model.Heap
+import ScalesModel.Adapter.Heap
 import ScalesModel.Proofs.AsyncLemmas
 import ScalesModel.Props.C17
